@@ -445,6 +445,9 @@ func (f *fx) fieldStep(base TV, i int, env *Env) TV {
 	}
 	info := f.e.sorts.structInfo[f.e.sorts.sortOf(t)]
 	if info == nil {
+		if bt := f.reify(base.V); bt.S != "" {
+			return tvTerm(f.opaqueField(bt, t, i), st.Field(i).Type())
+		}
 		unsupp("field of opaque struct %s", t)
 	}
 	return tvTerm(app(info.FSorts[i], info.Fields[i], f.reify(base.V)), st.Field(i).Type())
@@ -800,9 +803,6 @@ func (f *fx) specCall(e *ast.CallExpr, env *Env) TV {
 		}
 		k, _ := strconv.Unquote(tl.Value)
 		key := fmt.Sprintf("E:ret:%s:%s", k, il.Value)
-		if _, ok := f.e.keySorts[key]; !ok {
-			unsupp("lastret: no call of %s was seen before this point", k)
-		}
 		var gt types.Type
 		if fn := f.e.fnByKey[k]; fn != nil {
 			n, _ := strconv.Atoi(il.Value)
@@ -810,7 +810,22 @@ func (f *fx) specCall(e *ast.CallExpr, env *Env) TV {
 				gt = fn.Signature.Results().At(n).Type()
 			}
 		}
+		if _, ok := f.e.keySorts[key]; !ok {
+			// a program point that is processed before the first call of the callee (no call yet on any path to it):
+			// the value is unconstrained there
+			if gt == nil {
+				unsupp("lastret: no call of %s was seen before this point", k)
+			}
+			f.regKey(key, f.e.sorts.sortOf(gt))
+		}
 		return tvTerm(f.get(env.cur, key), gt)
+	case "recovered":
+		// recovered(): this return is reached after a deferred function recovered a panic
+		f.regKey("E:recovered", "Bool")
+		if t, ok := env.cur.m["E:recovered"]; ok {
+			return tvTerm(t, tBoolT)
+		}
+		return tvTerm(tFalse, tBoolT)
 	case "panicking":
 		f.regKey("E:panicking", "Bool")
 		if t, ok := env.cur.m["E:panicking"]; ok {
@@ -842,6 +857,19 @@ func (f *fx) specCall(e *ast.CallExpr, env *Env) TV {
 		// isptr(x): the dynamic type of interface value x is a pointer type
 		t := argT(0)
 			return tvTerm(T("Bool", "(is_ptr_tag (itag %s))", t.S), tBoolT)
+	case "implementsI":
+		// implementsI(x, "I"): the dynamic type of interface value x implements interface I
+		t := argT(0)
+		tl, ok := e.Args[1].(*ast.BasicLit)
+		if !ok {
+			unsupp("implementsI(x, \"I\")")
+		}
+		tn, _ := strconv.Unquote(tl.Value)
+		gt := f.e.lookupType(tn)
+		if gt == nil {
+			unsupp("implementsI: unknown type %s", tn)
+		}
+		return tvTerm(T("Bool", "(and (not (= (itag %s) 0)) (implements (itag %s) %d))", t.S, t.S, f.e.sorts.ifaceID(gt)), tBoolT)
 	case "isnil":
 		t := argT(0)
 		return tvTerm(eq(t, f.e.sorts.zero(t.Sort)), tBoolT)
